@@ -352,7 +352,12 @@ DoState(ln) ==
       clean  == Has(ln, "clean") /\ ln.clean
       vStep  == IF Len(hs) = 1 /\ clean THEN StepPreds(n, hs[1], pre, preLog, post, postLog, postSn) ELSE {}
       nc     == IF Len(hs) = 1 /\ clean /\ pre.up /\ post.up THEN Conformance(n, hs[1], pre, preLog, post, postLog) ELSE {}
-      V      == vSelf \cup vSync \cup conf \cup vTerm \cup vCommit \cup vLog \cup vOnce \cup vHole \cup vLast \cup vLead \cup vInfl \cup vStart \cup vStep
+      \* finding 14: a snapshot that does not reach beyond what was applied is installed all the same (the
+      \* state machine, the applied index and the last snapshot move backwards, a monotonic store is wiped)
+      vStale == IF Len(hs) = 1 /\ hs[1].kind = "is" /\ Has(hs[1], "resp") /\ hs[1].resp.ok /\ pre.up /\ sameInc
+                   /\ (hs[1].req.idx < pre.applied \/ (hs[1].req.idx = pre.applied /\ pre.last > hs[1].req.idx))
+                THEN {<<"C02", "StaleSnapshotInstalled", <<n, hs[1].req.idx, pre.applied, pre.last>>>>} ELSE {}
+      V      == vStale \cup vSelf \cup vSync \cup conf \cup vTerm \cup vCommit \cup vLog \cup vOnce \cup vHole \cup vLast \cup vLead \cup vInfl \cup vStart \cup vStep
   IN
   /\ obs' = o2 /\ dlog' = dl2 /\ dsnaps' = ds2
   /\ g' = [g EXCEPT !.agreed = ag2, !.reported = rep2, !.hpend[n] = <<>>, !.slog[n] = postLog,
